@@ -764,11 +764,18 @@ class Ctx:
             self._nfacts += 1
 
     def feasible(self, cond):
+        # feasibility has a 2 s soft budget; the watchdog enforces it (an interrupted query counts as feasible).
+        # When query after query runs into that limit (a changed function whose path conditions the solver cannot
+        # decide), the remaining ones are not attempted: every branch then counts as feasible, which is sound (an
+        # infeasible path only adds obligations whose hypotheses are contradictory) and keeps a check within minutes.
+        from .verify import WATCHDOG, _Budget
+        if _Budget.feas_spent > _Budget.feas_limit:
+            return True
+        import time as _t
         self._sync_facts()
         self.solver.push()
         self.solver.add(cond)
-        # feasibility has a 2 s soft budget; the watchdog enforces it (an interrupted query counts as feasible)
-        from .verify import WATCHDOG
+        t0 = _t.time()
         WATCHDOG.arm(self.solver.ctx, 8.0)
         try:
             r = self.solver.check()
@@ -777,6 +784,8 @@ class Ctx:
         finally:
             WATCHDOG.disarm()
         self.solver.pop()
+        if r == z3.unknown:
+            _Budget.feas_spent += _t.time() - t0
         return r != z3.unsat
 
     def branch(self, cond):
